@@ -76,6 +76,8 @@ var c08Families = []c08Family{
 		func(id int64) map[string]interface{} { return map[string]interface{}{"inp": id} }, false, false},
 	{"state inherited from the original (empty containers filled by the run)", "seen[\"k\" + inp] = inp\nbag.items[\"i\" + inp] = [inp]\narr0 = append(arr0, inp)\nnest[0][\"n\"] = inp\nout := [len(seen), len(bag.items), len(arr0), nest]\n",
 		func(id int64) map[string]interface{} { return map[string]interface{}{"inp": id} }, false, false},
+	{"state inherited from the original (bytes filled in place by a host function)", "fill(buf, inp)\nfill(box.b, inp + 1)\nout := [buf, box.b, len(buf)]\n",
+		func(id int64) map[string]interface{} { return map[string]interface{}{"inp": id} }, false, false},
 	{"format and string building", "out := format(\"%d-%s-%v-%05d-%x\", inp, \"x\", [inp, \"s\"], inp, inp)\no2 := \"v=\" + inp + '-' + 1.5\n",
 		func(id int64) map[string]interface{} { return map[string]interface{}{"inp": id} }, false, false},
 	{"compare and copy shared constants", "k := [1, 2, [3, \"four\"], {a: 5.5}]\nout := [copy(k) == k, \"const\" == \"const\", k[2][1][inp % 4], immutable(k)[3].a + inp, 'c' + 1]\nfz := freeze(k)\n",
@@ -94,6 +96,25 @@ func c08Compile(f c08Family) (*tengo.Compiled, error) {
 		_ = s.Add("cfg", &tengo.ImmutableMap{Value: map[string]tengo.Object{"name": &tengo.String{Value: "cfg"},
 			"hits": &tengo.Array{Value: []tengo.Object{&tengo.Int{Value: 0}, &tengo.Int{Value: 0}, &tengo.Int{Value: 0}}}}})
 		_ = s.Add("rows", []interface{}{map[string]interface{}{"id": 1}, []interface{}{10, 20}})
+	}
+	if strings.HasPrefix(f.name, "state inherited from the original (bytes") {
+		_ = s.Add("buf", make([]byte, 8))
+		_ = s.Add("box", map[string]interface{}{"b": make([]byte, 4)})
+		_ = s.Add("fill", &tengo.UserFunction{Name: "fill", Value: func(args ...tengo.Object) (tengo.Object, error) {
+			// native code writing into the bytes value it was given (as rand.read or a file read does)
+			if len(args) != 2 {
+				return nil, tengo.ErrWrongNumArguments
+			}
+			b, ok1 := args[0].(*tengo.Bytes)
+			n, ok2 := args[1].(*tengo.Int)
+			if !ok1 || !ok2 {
+				return nil, tengo.ErrInvalidArgumentType{Name: "first", Expected: "bytes", Found: args[0].TypeName()}
+			}
+			for i := range b.Value {
+				b.Value[i] = byte(n.Value + int64(i))
+			}
+			return tengo.UndefinedValue, nil
+		}})
 	}
 	if strings.HasPrefix(f.name, "state inherited from the original (empty") {
 		_ = s.Add("seen", map[string]interface{}{})
